@@ -112,6 +112,19 @@ func init() {
 		if iv, ok := a[1].(Iface); ok && iv.T == nil {
 			return nil
 		}
+		// pool discipline: an object that is already in the pool is put again (two later Gets would share it)
+		if nv, ok := a[1].(Iface); ok {
+			if np, ok := nv.V.(Ptr); ok && np.Obj != nil {
+				for _, it := range e.pools[k] {
+					if iv, ok := it.(Iface); ok {
+						if ip, ok := iv.V.(Ptr); ok && ip.Obj == np.Obj {
+							e.poolDoublePut++
+							e.tags = append(e.tags, "sync.Pool: object put twice ("+np.Obj.Site+")")
+						}
+					}
+				}
+			}
+		}
 		e.pools[k] = append(e.pools[k], a[1])
 		return nil
 	})
